@@ -670,6 +670,7 @@ def raw_term(c, a):
 # ---------------------------------------------------------------- the check
 def run(ctx):
     ctx.prove(["Props/C15.vo", "Run/eval_C15.vo"])
+    import extractlib; extractlib.fn_tie(ctx, "C15")   # sh.ExitStatus, sh.CmdRan, mg.ExitStatus re-translated from the tree and proved equal to Model/Sh.v's (DESIGN 3.5)
     ctx.trusted_base += ["harness/unitrun op sh (in-process calls of package sh with os.Stdin/Stdout/Stderr replaced by files; reports os.Environ())",
                          "harness/helperchild (reports its own argv, environment, stdin digest, exit code / signal and payloads)",
                          "checks/c15.py (generator, Coq printer, oracle)",
